@@ -911,6 +911,10 @@ def r5_ensembles(chk):
     loops = [s for s in walk_no_nested(f.node) if isinstance(s, ast.For)]
     ok = (len(loops) == 1 and norm(loops[0].iter) in ("self", "iter(self)") and len(loops[0].body) == 1 and not loops[0].orelse
           and norm(loops[0].body[0]) == f"{norm(loops[0].target)}.dump_mol2({f.params()[1]})")
+    if not ok and not any(isinstance(c_, ast.Call) and isinstance(c_.func, ast.Attribute) and c_.func.attr == "dump_mol2" for c_ in walk_no_nested(f.node)) \
+            and any(isinstance(c_, ast.Call) and norm(c_.func) == f"{f.params()[1]}.write" for c_ in walk_no_nested(f.node)):
+        # the ensemble renders its records itself instead of asking each conformer: a third writer, whose columns this rule does not read
+        raise AnalysisError(f"{f.key} writes the mol2 records itself (no delegation to the conformers' dump_mol2): its own writer is not decided")
     chk.decide(ok, "C07.R5", f"{f.key}:every-conformer-in-order", f.where(), "for conf in self: conf.dump_mol2(stream)",
                "ConformerEnsemble.dump_mol2 does not write every conformer once, in order, to the given stream")
     lm = prog.method(ens, "load_mol2")
